@@ -4,6 +4,8 @@ import (
 	"context"
 	"encoding/json"
 	"fmt"
+	"os"
+	"path/filepath"
 	"sort"
 	"strings"
 	"testing"
@@ -12,12 +14,15 @@ import (
 	"dsim/simos"
 	dstore "dsim/store"
 
+	"github.com/dolthub/dolt/go/libraries/doltcore/dbfactory"
 	"github.com/dolthub/dolt/go/libraries/doltcore/doltdb"
 	"github.com/dolthub/dolt/go/libraries/doltcore/doltdb/durable"
 	"github.com/dolthub/dolt/go/libraries/doltcore/ref"
 	"github.com/dolthub/dolt/go/libraries/doltcore/schema"
 	"github.com/dolthub/dolt/go/libraries/doltcore/table/editor/creation"
+	"github.com/dolthub/dolt/go/libraries/utils/filesys"
 	"github.com/dolthub/dolt/go/store/hash"
+	"github.com/dolthub/dolt/go/store/types"
 )
 
 // C25, second mode ("vc"): secondary indexes mirror their table after version-control operations.
@@ -493,7 +498,7 @@ func (C25H) Execute(t *testing.T, sc *core.Scenario) *core.Result {
 			}
 		case "restart":
 			if err := w.Restart(ctx); err != nil {
-				res.Violate("restart-failed", "-", step, "%s", firstLine(err))
+				res.Violate("restart-failed", "-", step, "%s%s", firstLine(err), vcDanglingRefs(ctx, root))
 				return res
 			}
 			res.Fault("clean-restart")
@@ -519,6 +524,54 @@ func (C25H) Execute(t *testing.T, sc *core.Scenario) *core.Result {
 	}
 	res.Sample = map[string]any{"mode": "vc", "steps": len(b.Ops), "indexes_compared": compared}
 	return res
+}
+
+// vcDanglingRefs opens the root database's store on its own and lists the refs whose target is not
+// in the store (diagnosis of a server that does not come up).
+func vcDanglingRefs(ctx context.Context, root string) string {
+	ddb, err := doltdb.LoadDoltDBWithParams(ctx, types.Format_DOLT, "file://"+filepath.ToSlash(filepath.Join(root, "test", ".dolt", "noms")), filesys.LocalFS,
+		map[string]interface{}{dbfactory.DisableSingletonCacheParam: "true", dbfactory.ChunkJournalParam: struct{}{}})
+	if err != nil {
+		return "; (the store does not open on its own either: " + firstLine(err) + ")"
+	}
+	defer ddb.Close()
+	out := ""
+	dss, err := doltdb.ExposeDatabaseFromDoltDB(ddb).Datasets(ctx)
+	if err != nil {
+		return "; (datasets unreadable: " + firstLine(err) + ")"
+	}
+	vrw := ddb.ValueReadWriter()
+	_ = dss.IterAll(ctx, func(id string, addr hash.Hash) error {
+		v, err := vrw.ReadValue(ctx, addr)
+		if err != nil || v == nil {
+			out += fmt.Sprintf("; ref %s -> %s is not in the store", id, addr)
+		}
+		return nil
+	})
+	if out == "" {
+		out = "; every ref's own target is in the store"
+	}
+	if b, err := os.ReadFile(filepath.Join(root, "test", ".dolt", "repo_state.json")); err == nil {
+		out += "; repo_state.json: " + strings.Join(strings.Fields(string(b)), " ")
+	}
+	if brs, err := ddb.GetBranches(ctx); err == nil {
+		var ns []string
+		for _, b := range brs {
+			ns = append(ns, b.GetPath())
+		}
+		out += "; branches: " + strings.Join(ns, ", ")
+		for _, b := range brs {
+			if _, err := ddb.ResolveCommitRef(ctx, b); err != nil {
+				out += fmt.Sprintf("; head of %s: %s", b.GetPath(), firstLine(err))
+			}
+			if wsRef, err := ref.WorkingSetRefForHead(b); err == nil {
+				if _, err := ddb.ResolveWorkingSet(ctx, wsRef); err != nil {
+					out += fmt.Sprintf("; working set of %s: %s", b.GetPath(), firstLine(err))
+				}
+			}
+		}
+	}
+	return out
 }
 
 func vcIndexKind(table string, idx schema.Index) string {
